@@ -44,11 +44,20 @@ func RandomScriptC16(rng *rand.Rand) tf.Script {
 	allowed := [][]string{{"d1"}, {"d1", "d2"}, {"d1", "d2"}, {"d2"}}[rng.Intn(4)]
 	c := randConsts(rng, allowed)
 	c["maxFeeds"] = 3
+	// MinSelfDelegation of v1 (self-delegation 3 units = 30000) and v2 (2 units = 20000): 1 (only a full removal jails),
+	// just below / at the self-delegation, or a whole unit below it
+	c["msd"] = []int{pick(rng, 1, 1, 3*RU-2, 3*RU, 2*RU), pick(rng, 1, 1, 2*RU-1, 2*RU, RU), 1}
+	opers := rng.Intn(2) == 0 // operator accounts take part
 	huge := rng.Intn(3) == 0
 	nacct := 1 + rng.Intn(NAcct)
 	n := 12 + rng.Intn(22)
 	var steps []tf.M
-	acct := func() int { return 1 + rng.Intn(nacct) }
+	acct := func() int {
+		if opers && rng.Intn(4) == 0 {
+			return NAcct + 1 + rng.Intn(NOper)
+		}
+		return 1 + rng.Intn(nacct)
+	}
 	vault := func() string { return []string{"k1", "k2", "k1", "feeds"}[rng.Intn(4)] }
 	// a prelude that gives every account something to withdraw, so that locks and decreases are possible early
 	for a := 1; a <= nacct; a++ {
@@ -71,7 +80,7 @@ func RandomScriptC16(rng *rand.Rand) tf.Script {
 			m := tf.M{"e": "Stake", "a": acct(), "d": []string{"d1", "d2"}[rng.Intn(2)], "n": 1 + rng.Intn(4)}
 			if huge && rng.Intn(3) == 0 {
 				m["d"] = "d2"
-				m["n"] = pick(rng, HM, HM+1, HM+2, 2*HM)
+				m["n"] = pick(rng, RH, RH+1, RH+2, 2*RH, RH-1)
 			}
 			if rng.Intn(25) == 0 {
 				m = tf.M{"e": "Stake", "a": acct(), "c": tf.M{"d1": rng.Intn(3), "d2": rng.Intn(3)}}
@@ -81,7 +90,7 @@ func RandomScriptC16(rng *rand.Rand) tf.Script {
 			m := amountStep(rng, tf.M{"e": "Unstake", "a": acct(), "d": []string{"d1", "d2"}[rng.Intn(2)]},
 				[]string{"fit", "fit+1", "fit+1", "fit", "slack+1", "fit-1", "all", "all+1"}, 70)
 			if huge && rng.Intn(4) == 0 {
-				m = tf.M{"e": "Unstake", "a": acct(), "d": "d2", "n": pick(rng, HM, HM+1, 1, 2)}
+				m = tf.M{"e": "Unstake", "a": acct(), "d": "d2", "n": pick(rng, RH, RH+1, 1, 2, RH-2)}
 			}
 			if rng.Intn(25) == 0 {
 				m = tf.M{"e": "Unstake", "a": acct(), "c": tf.M{"d1": rng.Intn(3), "d2": rng.Intn(3)}}
@@ -91,7 +100,7 @@ func RandomScriptC16(rng *rand.Rand) tf.Script {
 			steps = append(steps, tf.M{"e": "Delegate", "a": acct(), "v": 1 + rng.Intn(3), "n": 1 + rng.Intn(4)})
 		case x < 61:
 			steps = append(steps, amountStep(rng, tf.M{"e": "Undelegate", "a": acct(), "v": valRole(rng)},
-				[]string{"fit", "fit+1", "fit+1", "fit", "slack+1", "all", "all", "all+1"}, 70))
+				[]string{"fit", "fit+1", "fit+1", "fit", "slack+1", "all", "all", "all+1", "tomsd", "tomsd+1"}, 70))
 		case x < 68:
 			steps = append(steps, amountStep(rng, tf.M{"e": "Redelegate", "a": acct(), "v": valRole(rng), "w": 1 + rng.Intn(3)},
 				[]string{"all", "fit", "fit+1", "all+1", "fit"}, 60))
@@ -101,7 +110,7 @@ func RandomScriptC16(rng *rand.Rand) tf.Script {
 			case y < 4:
 				m["sym"] = []string{"power", "power+1", "power-1", "power"}[rng.Intn(4)]
 			case y < 5 && huge:
-				m["n"] = pick(rng, HM, HM+1, 2*HM, 2*HM+1, HM+3)
+				m["n"] = pick(rng, RH, RH+1, 2*RH, 2*RH+1, RH+3, 2*RH-1)
 			case y < 6:
 				m["n"] = pick(rng, 0, -1, 0)
 			default:
@@ -118,10 +127,128 @@ func RandomScriptC16(rng *rand.Rand) tf.Script {
 			steps = append(steps, m)
 		case x < 94:
 			steps = append(steps, tf.M{"e": "Deactivate", "k": []string{"k1", "k2", "feeds", "k1"}[rng.Intn(4)]})
+		case x < 96 && opers:
+			steps = append(steps, tf.M{"e": "Unjail", "v": 1 + rng.Intn(NOper)})
 		default:
 			steps = append(steps, tf.M{"e": "EndBlock"})
 		}
 	}
+	return tf.Script{Fam: "Restake", C: c, Steps: steps}
+}
+
+// JailScript: histories around a validator that is jailed in the middle of a block because its operator takes the
+// self-delegation below MinSelfDelegation.  The validator keeps status Bonded - and its delegations keep counting
+// as power - until the staking end-blocker of that block; afterwards they no longer count.  Operators and other
+// delegators hold locks and try partial and full removals in the same block and in later blocks.
+func JailScript(rng *rand.Rand) tf.Script {
+	allowed := [][]string{{"d1"}, {"d1"}, {"d1", "d2"}}[rng.Intn(3)]
+	c := randConsts(rng, allowed)
+	c["maxFeeds"] = 3
+	c["msd"] = []int{pick(rng, 1, 1, 3*RU-2, 3*RU, 2*RU), pick(rng, 1, 1, 2*RU-1, 2*RU, RU), 1}
+	var steps []tf.M
+	add := func(m tf.M) { steps = append(steps, m) }
+	v := 1 + rng.Intn(NOper) // the validator that gets jailed
+	op := NAcct + v          // its operator account
+	other := NAcct + 1 + (v % NOper)
+	ndel := 1 + rng.Intn(NAcct)
+	vault := func() string { return []string{"k1", "k2", "feeds"}[rng.Intn(3)] }
+	lockOn := func(a int) {
+		if rng.Intn(3) == 0 {
+			add(tf.M{"e": "Vote", "a": a, "sv": []tf.M{{"s": 1 + rng.Intn(NSignal), "p": 1}}, "shape": "ok", "sym": "power"})
+			return
+		}
+		m := tf.M{"e": "SetLock", "a": a, "k": vault()}
+		switch rng.Intn(5) {
+		case 0:
+			m["sym"] = "power-1"
+		case 1:
+			m["n"] = 1 + rng.Intn(3)
+		default:
+			m["sym"] = "power"
+		}
+		add(m)
+	}
+	// delegators put (mostly all of) their power on v
+	for a := 1; a <= ndel; a++ {
+		add(tf.M{"e": "Delegate", "a": a, "v": v, "n": 1 + rng.Intn(5)})
+		if rng.Intn(3) == 0 {
+			add(tf.M{"e": "Delegate", "a": a, "v": 1 + rng.Intn(3), "n": 1 + rng.Intn(3)})
+		}
+		if rng.Intn(4) == 0 {
+			add(tf.M{"e": "Stake", "a": a, "d": "d1", "n": 1 + rng.Intn(3)})
+		}
+		if rng.Intn(5) != 0 {
+			lockOn(a)
+		}
+	}
+	if rng.Intn(2) == 0 {
+		lockOn(op)
+	}
+	if rng.Intn(4) == 0 {
+		lockOn(other)
+	}
+	if rng.Intn(3) == 0 {
+		add(tf.M{"e": "EndBlock"})
+	}
+	operatorLeaves := func() {
+		m := tf.M{"e": "Undelegate", "a": op, "v": v}
+		switch rng.Intn(8) {
+		case 0:
+			m["sym"] = "tomsd" // stays at MinSelfDelegation: no jailing
+		case 1, 2:
+			m["sym"] = "tomsd+1" // partial, jails
+		case 3:
+			m = tf.M{"e": "Redelegate", "a": op, "v": v, "w": 3, "sym": "all"}
+		default:
+			m["sym"] = "all" // full removal, jails
+		}
+		add(m)
+	}
+	delegatorActs := func() {
+		a := 1 + rng.Intn(ndel)
+		switch rng.Intn(10) {
+		case 0:
+			add(tf.M{"e": "Undelegate", "a": a, "v": v, "sym": "fit+1"})
+		case 1:
+			add(tf.M{"e": "Undelegate", "a": a, "v": v, "sym": "fit"})
+		case 2:
+			add(tf.M{"e": "Redelegate", "a": a, "v": v, "w": 1 + rng.Intn(3), "sym": "all"})
+		case 3:
+			add(tf.M{"e": "Undelegate", "a": a, "v": v, "n": 1})
+		default:
+			add(tf.M{"e": "Undelegate", "a": a, "v": v, "sym": "all"})
+		}
+	}
+	rounds := 1 + rng.Intn(3)
+	for r := 0; r < rounds; r++ {
+		operatorLeaves()
+		for i := rng.Intn(3); i > 0; i-- {
+			delegatorActs()
+		}
+		if rng.Intn(3) == 0 {
+			operatorLeaves() // the rest of the self-delegation, from the jailed validator
+		}
+		switch rng.Intn(4) {
+		case 0:
+			add(tf.M{"e": "EndBlock"})
+			delegatorActs()
+		case 1:
+			add(tf.M{"e": "EndBlock"})
+			add(tf.M{"e": "Delegate", "a": op, "v": v, "n": pick(rng, RU, 2*RU, 3*RU)})
+			add(tf.M{"e": "Unjail", "v": v})
+			add(tf.M{"e": "EndBlock"})
+		case 2:
+			delegatorActs()
+		}
+		if rng.Intn(3) == 0 {
+			lockOn(1 + rng.Intn(ndel))
+		}
+		if rng.Intn(5) == 0 {
+			add(tf.M{"e": "Deactivate", "k": vault()})
+		}
+	}
+	add(tf.M{"e": "EndBlock"})
+	delegatorActs()
 	return tf.Script{Fam: "Restake", C: c, Steps: steps}
 }
 
